@@ -110,6 +110,8 @@ struct Endpoint {
     addr: SocketAddrV4,
     inline: bool,
     state: AtomicU8,
+    /// number of times the thread has arrived at `recv_from` (the lock-step point)
+    arrivals: std::sync::atomic::AtomicU64,
     panicked: AtomicBool,
     grant: Mutex<Option<Grant>>,
     thread: Thread,
@@ -175,6 +177,7 @@ impl UdpSocket {
                 addr: a,
                 inline: INLINE.with(|c| c.get()),
                 state: AtomicU8::new(ST_RUNNING),
+                arrivals: std::sync::atomic::AtomicU64::new(0),
                 panicked: AtomicBool::new(false),
                 grant: Mutex::new(None),
                 thread: std::thread::current(),
@@ -203,6 +206,7 @@ impl UdpSocket {
     pub fn recv_from(&self, buf: &mut [u8]) -> io::Result<(usize, SocketAddr)> {
         if !self.ep.inline {
             // Lock-step: report "parked", then wait for the scheduler's grant.
+            self.ep.arrivals.fetch_add(1, Ordering::SeqCst);
             self.ep.state.store(ST_PARKED, Ordering::SeqCst);
             loop {
                 if self.ep.grant.lock().unwrap_or_else(|e| e.into_inner()).is_some() {
@@ -321,9 +325,30 @@ pub fn sim_step(id: u64, grant: Grant, watchdog: Duration) -> Option<bool> {
     if ep.state.load(Ordering::SeqCst) == ST_DEAD {
         return Some(false);
     }
+    // The thread has finished the granted step when it ARRIVES at `recv_from` again. (State and grant alone cannot tell:
+    // reading "parked" and then "grant taken" can straddle the moment the thread wakes up and takes the grant.)
+    let before = ep.arrivals.load(Ordering::SeqCst);
     *ep.grant.lock().unwrap_or_else(|e| e.into_inner()) = Some(grant);
     ep.thread.unpark();
-    wait_parked_or_dead(&ep, watchdog)
+    let start = std::time::Instant::now();
+    let mut spins = 0u32;
+    loop {
+        if ep.state.load(Ordering::SeqCst) == ST_DEAD {
+            return Some(false);
+        }
+        if ep.arrivals.load(Ordering::SeqCst) > before {
+            return wait_parked_or_dead(&ep, watchdog);
+        }
+        spins += 1;
+        if spins < 2000 {
+            std::hint::spin_loop();
+        } else {
+            std::thread::sleep(Duration::from_micros(20));
+            if start.elapsed() > watchdog {
+                return None;
+            }
+        }
+    }
 }
 
 // ------------------------------------------------------------------ wire codec access
